@@ -105,6 +105,11 @@ let () =
       Printf.printf "a %s %s %s %s %s\n" (b01 added) (str_adderr e) (string_of_n ps'.ps_count)
         (b01 (is_complete ps')) (str_bits (bit_array ps'));
       loop ()
+    | Some ["W"; idx; bz; ptotal; pindex; leaf; au] ->
+      let pr = { p_total = n_of_string ptotal; p_index = n_of_string pindex; p_leaf = unhex leaf; p_aunts = parse_aunts au } in
+      Printf.printf "w %s\n" (match part_from_proto_real (n_of_string idx) (unhex bz) pr with
+          | WOk -> "ok" | WProof -> "proof" | WTooBig -> "toobig");
+      loop ()
     | Some ["R"] ->
       (match read_all !cur with
        | None -> print_endline "r PANIC"
